@@ -147,6 +147,11 @@ def table : List Entry :=
     e "suite" "key.NewKeyPair" .fresh "draws from the suite's stream, writes only the new key pair",
     e "suite" "Hash" .fresh,
     e "suite" "XOF" .fresh,
+    e "pairing-bn256" "Suite accessors" .fresh "G1()/G2()/GT() and the constructors write nothing shared",
+    e "pairing-bn254" "Suite accessors" .fresh,
+    e "pairing-kilic" "Suite accessors" .fresh,
+    e "pairing-circl" "Suite accessors" .fresh,
+    e "pairing-gnark" "Suite accessors" .fresh,
     e "pairing-bn256" "Pair" .fresh "operands cloned before MakeAffine",
     e "pairing-bn256" "ValidatePairing" .fresh,
     e "pairing-bn254" "Pair" .fresh,
